@@ -164,6 +164,15 @@ def inject(r, text, kind, pos=None):
     return new if new != text else None
 
 
+def insert_empty_label(xml, gi):
+    """an empty, self-closed label as the first label of the gi-th transition of the document"""
+    pos = -1
+    for _ in range(gi + 1):
+        pos = xml.index("<transition", pos + 1)
+    m2 = re.compile(r"<target [^>]*/>").search(xml, pos)
+    return xml[:m2.end()] + '<label kind="comments" x="8" y="8"/>' + xml[m2.end():]
+
+
 def label_path(m, ti, kind, idx, field):
     """XPath the reader attributes diagnostics of this label to"""
     t = m["templates"][ti]
@@ -266,7 +275,7 @@ def run(ctx):
     cov["seed_models_accepted"] = len(accepted)
     if len(accepted) * 2 < len(seeds):
         ctx.notes.append("fewer than half of the seed models were accepted: %s" % [base["s%d.p" % si]["E"][:1] for si in range(len(seeds))][:5])
-    cases, meta = [], {}
+    cases, meta, shifted = [], {}, {}
     for si in accepted:
         m = seeds[si]
         for lab in labels_of(m):
@@ -280,6 +289,14 @@ def run(ctx):
                     continue
                 cid = "f%d" % len(meta)
                 xml = G.to_xml(with_label(m, lab, t2))
+                if lab[1] == "edge" and len(meta) % 4 == 3:
+                    # an EMPTY label written in front of the labels of the faulted edge (GUI files carry such `comments` labels): it
+                    # holds no text, but it counts in the XPath of the labels that follow
+                    gi = sum(len(t["edges"]) for t in m["templates"][:lab[0]]) + lab[2]
+                    xml = insert_empty_label(xml, gi)
+                    shifted[cid] = gi
+                    cases.append((cid + ".sb", "b", insert_empty_label(G.to_xml(m), gi)))
+                    cases.append((cid + ".sp", "p", insert_empty_label(G.to_xml(m), gi)))
                 meta[cid] = (si, lab, k, t2, xml)
                 cases.append((cid + ".b", "b", xml))
                 if k == "typeerr":
@@ -319,6 +336,7 @@ def run(ctx):
         ctx.finding("crash:" + C08.crash_site(err, rc), what, {"stderr": err, "input_b64": base64.b64encode(dead[2].encode()).decode() if dead else None})
     # compare -----------------------------------------------------------------------------------------------------------
     disturbed = []      # (cid, what)
+    stats_shifted = [0]
     diagkey = {}
     n_cmp = 0
     dist = {}
@@ -331,11 +349,19 @@ def run(ctx):
         key = lab[4]
         path = label_path(seeds[si], lab[0], lab[1], lab[2], lab[3])
         b0 = base["s%d.b" % si]
+        bp0 = base["s%d.p" % si]
+        if cid in shifted:
+            # the fault-free reference is the same model with the same empty label; the faulted label is one further on
+            path = re.sub(r"label\[(\d+)\]$", lambda mm: "label[%d]" % (int(mm.group(1)) + 1), path)
+            b0, bp0 = res.get(cid + ".sb"), res.get(cid + ".sp")
+            if not b0 or not b0["done"] or not bp0 or not bp0["done"]:
+                continue
+            stats_shifted[0] += 1
         use, ref = fb, b0
         if k == "typeerr" and not fb["E"]:
             fp = res.get(cid + ".p")
             if fp and fp["done"]:
-                use, ref = fp, base["s%d.p" % si]
+                use, ref = fp, bp0
                 sem += 1
         else:
             synt += 1
@@ -379,6 +405,7 @@ def run(ctx):
                     break
     cov["xta_label_fault_cases"] = n_xta
     cov["correspondence_cases"] = n_cmp
+    cov["faults_behind_an_empty_label"] = stats_shifted[0]
     cov["syntax_fault_cases"] = synt
     cov["semantic_fault_cases_compared_after_analysis"] = sem
     cov["fault_distribution"] = dist
@@ -417,6 +444,8 @@ def run(ctx):
             # left behind by a label that parsed without a syntax error is something else
             si_, lab_, _, _, _ = meta[cid]
             lpath = label_path(seeds[si_], lab_[0], lab_[1], lab_[2], lab_[3])
+            if cid in shifted:
+                lpath = re.sub(r"label\[(\d+)\]$", lambda mm: "label[%d]" % (int(mm.group(1)) + 1), lpath)
             fb_ = res.get(cid + ".b") or {"E": []}
             syn = any(p_ == lpath and "syntax_error" in msg_ for p_, msg_ in fb_["E"])
             k = ("leak:frame:" if syn else "leak:frame-without-syntax-error:") + shape if shape else ("diag:%s:%s" % (meta[cid][1][3], diagkey[cid]) if cid in diagkey else
